@@ -23,6 +23,8 @@
                                      via q client_send_io; "<ok|E>:<bytes received>", "R" refused
      rpz <cfg> <hist> <kind> <hex/hex/..>   client_paused_log: the stream delivered in these pieces with a deadline
                                      error between consecutive pieces; the headers reported, comma separated, "-" none
+     mwr <via> <par> <ver> t:l:id:fill;..   msg_writer_frame for every call (ids ascending): "<header hex>:ok" per
+                                     accepted call, "!err=<n>" refused ones
    ("!nh" after a stl token: client_offers is false - the message is not handed to a handler)
    decoded headers print as ver.typ.len.id, rejection/refusal as E, bytes as hex *)
 open Model
@@ -229,6 +231,20 @@ let () =
          (match client_paused_log st ps with
           | [] -> Buffer.add_char out '-'
           | hs -> Buffer.add_string out (String.concat "," (List.map (fun h -> res_string (HOk h)) hs)))
+       | ["mwr"; via; _; ver; items] ->
+         (* ids ascend in the request, so the frames sorted by id are the accepted items in order *)
+         let ver = n_of_int (int_of_string ver) in
+         let errs = ref 0 in
+         let toks = List.filter_map (fun it ->
+             match List.map int_of_string (String.split_on_char ':' it) with
+             | [t; l; i; fl] ->
+               let wver = if via = "c" && (t = 46 || t = 47) then n_of_int 2 else ver in
+               (match msg_writer_frame wver (((n_of_int t, n_of_int l), n_of_int i), n_of_int fl) with
+                | Some fr -> Some (String.sub (hex_of fr) 0 20 ^ ":ok")
+                | None -> incr errs; None)
+             | _ -> failwith "bad item") (String.split_on_char ';' items) in
+         Buffer.add_string out (if toks = [] then "-" else String.concat " " toks);
+         if !errs > 0 then Buffer.add_string out (" !err=" ^ string_of_int !errs)
        | ["raw"; h] ->
          decode_both out (if h = "-" then [] else bytes_of_hex h)
        | ["enc"; ver; typ; lens; ids] ->
